@@ -516,3 +516,28 @@ package sam
 //@   ensures[C07] @progsA progsA(result)
 //@   ensures[C07] @progsB progsB(result)
 //@   ensures[C07] @progsC progsC(result)
+
+// NewHeader (C07): a header built from a list of references satisfies the
+// identity invariant: the references get their indices as ids, belong to the
+// header, and their names are entered in the name table, so that a later
+// AddReference of a name already present is recognised. Duplicate names in
+// the list are refused. (The header text, when given, is parsed by
+// UnmarshalText, which is not under contract: the postcondition is stated for
+// a nil text.)
+//@ trusted func Header.UnmarshalText
+//@   modifies all(bh), objects(sam.Reference)
+
+//@ func NewHeader
+//@   mode int
+//@   props C07
+//@   requires len(r) <= 1000000 && (forall k in 0..len(r) :: r[k] != nil) &&
+//@       (forall k in 0..len(r) :: forall j in 0..len(r) :: (k != j ==> r[k] != r[j]))
+//@   modifies objects(Reference)
+//@   loop 0 invariant @own fresh(bh) && bh.seenRefs != nil && fresh(bh.seenRefs) && bh.refs == r &&
+//@       (forall k in 0..rangeindex + 1 :: (r[k].owner == bh && int(r[k].id) == k && has(bh.seenRefs, r[k].name) && int(bh.seenRefs[r[k].name]) == k)) &&
+//@       (forall s string :: has(bh.seenRefs, s) ==> (0 <= bh.seenRefs[s] && int(bh.seenRefs[s]) < rangeindex + 1 && r[int(bh.seenRefs[s])].name == s)) &&
+//@       (forall k in rangeindex + 1..len(r) :: (r[k].owner == old(r[k].owner) && r[k].id == old(r[k].id))) &&
+//@       (forall k in 0..len(r) :: r[k].name == old(r[k].name))
+//@   ensures[C07] @invA (text == nil && result1 == nil) ==> refsA(result0)
+//@   ensures[C07] @invB (text == nil && result1 == nil) ==> refsB(result0)
+//@   ensures[C07] @invC (text == nil && result1 == nil) ==> refsC(result0)
